@@ -264,10 +264,54 @@ fn gen_rules() -> BoxedStrategy<Value> {
     gen::case2(rules::rooted(cfg), gen::data_docs())
 }
 
+
+const KINDS: u64 = 6;
+fn check_sizes(case: &Value, obs: &mut Obs) -> Result<(), String> {
+    let n = case["n"].as_u64().unwrap_or(1) as usize;
+    let k = case["k"].as_u64().unwrap_or(0);
+    // the deciding element is the last one
+    let mut ones: Vec<Value> = vec![json!(1); n];
+    ones[n - 1] = json!(0);
+    let mut zeros: Vec<Value> = vec![json!(0); n];
+    zeros[n - 1] = json!(1);
+    let data = json!({"ones": ones, "zeros": zeros, "s": sized_string(n)});
+    let rule = match k {
+        0 => json!({"all": [{"var": "ones"}, {"var": ""}]}),
+        1 => json!({"some": [{"var": "zeros"}, {"var": ""}]}),
+        2 => json!({"none": [{"var": "zeros"}, {"var": ""}]}),
+        3 => json!({"all": [{"var": "s"}, {"var": ""}]}),
+        4 => json!({"some": [{"var": "s"}, {"!": {"var": ""}}]}),
+        _ => json!({"all": [{"var": "zeros"}, {"!": {"var": ""}}]}),
+    };
+    size_case(&rule, &data, obs, &format!("size kind {} n {}", k, if n < 1000 { "~2^8" } else if n < 10000 { "~2^12" } else { "~2^16" }))
+}
+
+fn fixed_sizes() -> Vec<Value> {
+    let mut out = vec![];
+    for n in SIZE_EDGES {
+        for k in 0..KINDS {
+            out.push(json!({"n": n, "k": k}));
+        }
+    }
+    out
+}
+
 pub fn property() -> Property {
     Property {
         id: "C14",
         subs: vec![
+            Sub {
+                name: "size_boundaries",
+                about: "collections of exactly 255 ... 65537 elements (and strings of that many characters) whose deciding element is the last one: all / some / none must visit every element and stop there, against the reference model.",
+                nontrivial: "every case.",
+                strategy: None,
+                fixed: Some(fixed_sizes),
+                fixed_exhaustive: true,
+                check: check_sizes,
+                quick: 0,
+                thorough: 0,
+                small_stack: false,
+            },
             Sub {
                 name: "quantifiers",
                 about: "all / some / none over literal arrays whose elements are expressions (outer-data references, logging and erroring poison placed anywhere, statically malformed elements), computed arrays (var, merge, whole data) whose elements are data, literal and computed strings incl. 4-byte characters, null, empty, and other types; 18 predicates; oracle = the model (quantifier semantics, laziness via the log multiset and poison) plus model-free laws: boolean result, none = not some (and fails exactly when some fails), all(p) = none(!p) on non-empty collections, empty / null give all = some = false.",
